@@ -114,11 +114,14 @@ def main(argv):
                 return ("exc", type(e).__name__)
         r_helper = run(lambda: check_key_helper(key, au, pfx))
         results = {"helper": r_helper}
+        # the encoding of VALUES is a different setting: it has no say in which keys are legal
+        enc_kw = [{}, {"encoding": "ascii"}, {"encoding": "utf-8"}, {"encoding": "latin-1"}][(i // 3) % 4 if isinstance(key, str) else 0]
+        case["value_encoding"] = enc_kw.get("encoding", "default")
         if i % 3 == 0 or want is None or len(pfx + (key if isinstance(key, bytes) else b"")) >= 247:
-            c = Client(("h", 1), allow_unicode_keys=au, key_prefix=pfx, socket_module=sm)
+            c = Client(("h", 1), allow_unicode_keys=au, key_prefix=pfx, socket_module=sm, **enc_kw)
             results["Client.check_key"] = run(lambda: c.check_key(key, pfx))
             try:
-                pc = PooledClient(("h", 1), allow_unicode_keys=au, key_prefix=pfx, socket_module=sm)
+                pc = PooledClient(("h", 1), allow_unicode_keys=au, key_prefix=pfx, socket_module=sm, **enc_kw)
                 results["PooledClient.check_key"] = run(lambda: pc.check_key(key))
             except Exception as e:
                 results["PooledClient.check_key"] = ("exc", type(e).__name__)
@@ -129,9 +132,9 @@ def main(argv):
                 world.tag = i
                 try:
                     if cls == "Client":
-                        obj = Client(("h", 1), allow_unicode_keys=au, key_prefix=pfx, socket_module=sm)
+                        obj = Client(("h", 1), allow_unicode_keys=au, key_prefix=pfx, socket_module=sm, **enc_kw)
                     else:
-                        obj = HashClient([("h", 1)], allow_unicode_keys=au, key_prefix=pfx, socket_module=sm)
+                        obj = HashClient([("h", 1)], allow_unicode_keys=au, key_prefix=pfx, socket_module=sm, **enc_kw)
                     r = run(lambda: obj.get(key))
                 except Exception as e:
                     r = ("exc", type(e).__name__)
